@@ -36,3 +36,4 @@ Print Assumptions C20_set_order_irrelevant.
 (* same calls, same state: same result (a function) *)
 Theorem C20_replay : forall pid_of fuel files s o, step pid_of fuel files s o = step pid_of fuel files s o.
 Proof. reflexivity. Qed.
+Print Assumptions C20_replay.
